@@ -325,9 +325,117 @@ static void run_trial(int idx)
 	free(t);
 }
 
+/* ------------------------------------------------------------------ pbar mode
+ * Directed schedule (two failpoints on the drainer, hook H1) for a concurrent queue that is
+ * suspended while its drainer re-runs after it had to give up for lack of width:
+ *   the queue holds  B0 (barrier: arms the drainer's failpoints), N1 (non-barrier, runs
+ *   elsewhere and blocks), B1 (barrier), then a tail of ordinary items;
+ *   D  runs B0, hands N1 over, cannot get the full width for B1 (N1 is running): it leaves the
+ *      "pending barrier" reservation in the queue state and goes to unlock      -> failpoint 1
+ *   N1 is released and completes: it finds the queue drain-locked and marks it dirty
+ *   D  sees the dirty bit, clears it and decides to drain again                 -> failpoint 2
+ *   the controller calls dispatch_suspend(Q); D drains again, finds the queue suspended with
+ *   the barrier at its head and leaves.
+ * C06: after the resume everything pending runs (B1 and the tail), nothing started while the
+ * queue was suspended; C04: B1 after N1, tail after B1. */
+typedef struct {
+	dispatch_queue_t q;
+	_Atomic int b0_ran, n1_started, n1_release, n1_done, b1_ran, tail_ran, d_tid;
+	uint64_t susp_ret, resume_call, b1_start, n1_end;
+	_Atomic uint64_t tail_first_start;
+} pbar_t;
+static void pb_b0(void *ctx)
+{
+	pbar_t *p = ctx;
+	atomic_store(&p->d_tid, vf_gettid());
+	vf_stall_arm("_dispatch_queue_drain_try_unlock", 0, 0, 3000ull * 1000 * 1000);    /* before the unlock reads the state */
+	vf_stall2_arm("_dispatch_queue_drain_try_unlock", 4, 1, 3000ull * 1000 * 1000);   /* after it cleared the dirty bit */
+	atomic_store(&p->b0_ran, 1);
+	vf_progress();
+}
+static void pb_n1(void *ctx)
+{
+	pbar_t *p = ctx;
+	atomic_store(&p->n1_started, 1);
+	while (!atomic_load(&p->n1_release)) { struct timespec ts = { 0, 50000 }; nanosleep(&ts, NULL); }
+	p->n1_end = vf_stamp();
+	atomic_store(&p->n1_done, 1);
+	vf_progress();
+}
+static void pb_b1(void *ctx) { pbar_t *p = ctx; p->b1_start = vf_stamp(); atomic_store(&p->b1_ran, 1); vf_progress(); }
+static void pb_tail(void *ctx)
+{
+	pbar_t *p = ctx;
+	uint64_t z = 0, s = vf_stamp();
+	atomic_compare_exchange_strong(&p->tail_first_start, &z, s);
+	atomic_fetch_add(&p->tail_ran, 1);
+	vf_progress();
+}
+static int pb_wait(_Atomic int *f, int want, uint64_t ms)
+{
+	uint64_t t0 = vf_now_ns(CLOCK_MONOTONIC);
+	while (atomic_load(f) < want) {
+		if (vf_now_ns(CLOCK_MONOTONIC) - t0 > ms * 1000000ull) return 0;
+		struct timespec ts = { 0, 20000 }; nanosleep(&ts, NULL);
+	}
+	return 1;
+}
+static void run_pbar_trial(int idx)
+{
+	pbar_t *p = calloc(1, sizeof(*p));
+	int ntail = 3 + idx % 4;
+	vf_perturb_off();
+	vf_stall_reset();
+	p->q = idx & 1 ? dispatch_queue_create_with_target("vf.suspend.pbar", DISPATCH_QUEUE_CONCURRENT, dispatch_get_global_queue(DISPATCH_QUEUE_PRIORITY_LOW, 0))
+			: dispatch_queue_create("vf.suspend.pbar", DISPATCH_QUEUE_CONCURRENT);
+	vf_watch_begin("suspend:pending-barrier", 0);
+	dispatch_suspend(p->q);
+	dispatch_barrier_async_f(p->q, p, pb_b0);
+	dispatch_async_f(p->q, p, pb_n1);
+	dispatch_barrier_async_f(p->q, p, pb_b1);
+	for (int i = 0; i < ntail; i++) dispatch_async_f(p->q, p, pb_tail);
+	dispatch_resume(p->q);
+	int ok = pb_wait(&p->n1_started, 1, 5000);
+	uint64_t t0 = vf_now_ns(CLOCK_MONOTONIC);
+	while (!vf_stall_reached() && vf_now_ns(CLOCK_MONOTONIC) - t0 < 2000000000ull) { struct timespec ts = { 0, 20000 }; nanosleep(&ts, NULL); }
+	int d_at_unlock = vf_stall_reached();
+	atomic_store(&p->n1_release, 1);
+	pb_wait(&p->n1_done, 1, 5000);
+	{ struct timespec ts = { 0, 3000000 }; nanosleep(&ts, NULL); }   /* N1's completion marks the drain-locked queue dirty */
+	vf_stall_release();
+	t0 = vf_now_ns(CLOCK_MONOTONIC);
+	while (!vf_stall2_reached() && vf_now_ns(CLOCK_MONOTONIC) - t0 < 1000000000ull) { struct timespec ts = { 0, 20000 }; nanosleep(&ts, NULL); }
+	int d_redrains = vf_stall2_reached();
+	dispatch_suspend(p->q);
+	p->susp_ret = vf_stamp();
+	vf_stall2_release();
+	{ struct timespec ts = { 0, 3000000 }; nanosleep(&ts, NULL); }   /* D drains again, finds the queue suspended, leaves */
+	int early = atomic_load(&p->b1_ran);
+	p->resume_call = vf_stamp();
+	dispatch_resume(p->q);
+	/* everything pending must run now (watchdog: stuck witness otherwise) */
+	while (!(atomic_load(&p->b1_ran) && atomic_load(&p->tail_ran) == ntail)) { struct timespec ts = { 0, 200000 }; nanosleep(&ts, NULL); }
+	vf_watch_end();
+	int engaged = ok && d_at_unlock && d_redrains;
+	if (engaged && early) vf_violation("C06:started-while-suspended:concurrent-queue-pending-barrier", "barrier item started while the queue was suspended (suspend returned at %llu, resume called at %llu, barrier started at %llu)",
+			(unsigned long long)p->susp_ret, (unsigned long long)p->resume_call, (unsigned long long)p->b1_start);
+	if (p->b1_start < p->n1_end) vf_violation("C04:barrier-overlap", "pending-barrier scenario: barrier B1 started (%llu) before the earlier non-barrier item finished (%llu)", (unsigned long long)p->b1_start, (unsigned long long)p->n1_end);
+	if (atomic_load(&p->tail_first_start) < p->b1_start) vf_violation("C04:barrier-order", "pending-barrier scenario: an item submitted after barrier B1 started before it");
+	vf_count("pbar_trials", 1);
+	if (engaged) vf_count("pbar_schedule_reached", 1);
+	vf_count("items", (uint64_t)ntail + 3);
+	vf_emit("trial", "\"n\":1,\"sig\":\"pbar-%d-%d-%d\",\"nontrivial\":%s,\"sample\":{\"trial\":%d,\"shape\":\"pending-barrier+suspend\",\"drainer_stalled_before_unlock\":%d,\"drainer_saw_dirty_and_redrains\":%d,\"tail_items\":%d,\"everything_ran_after_resume\":1}",
+			idx & 1, ntail, engaged, engaged ? "true" : "false", idx, d_at_unlock, d_redrains, ntail);
+	dispatch_release(p->q);
+	free(p);
+}
+
 int main(int argc, char **argv)
 {
 	vf_init(argc, argv, "h_suspend");
-	for (int i = 0; i < vf_opts.trials; i++) run_trial(vf_opts.first_trial + i);
+	for (int i = 0; i < vf_opts.trials; i++) {
+		if (!strcmp(vf_opts.mode, "pbar")) run_pbar_trial(vf_opts.first_trial + i);
+		else run_trial(vf_opts.first_trial + i);
+	}
 	return vf_finish();
 }
